@@ -21,6 +21,28 @@ fn work() -> u64 {
     divan::black_box(17u64).wrapping_mul(31)
 }
 
+/// Case flags of the child (the benches below are inert unless set).
+static NOISY: std::sync::atomic::AtomicBool = std::sync::atomic::AtomicBool::new(false);
+static BOOM: std::sync::atomic::AtomicBool = std::sync::atomic::AtomicBool::new(false);
+
+/// User code that writes to stdout from every thread of the benchmark.
+#[divan::bench(threads = [2, 3], sample_count = 1, sample_size = 1)]
+fn noisy() {
+    if NOISY.load(std::sync::atomic::Ordering::Relaxed) {
+        println!("noise from {:?}", std::thread::current().name());
+    }
+}
+
+/// User code that panics on a pooled thread.
+#[divan::bench(threads = [2], sample_count = 1, sample_size = 1)]
+fn boom() {
+    if BOOM.load(std::sync::atomic::Ordering::Relaxed)
+        && std::thread::current().name().map_or(false, |n| n.starts_with("divan-"))
+    {
+        panic!("boom on a pooled thread");
+    }
+}
+
 #[divan::bench(threads = [1, 3], sample_count = 1, sample_size = 1)]
 fn other() -> u64 {
     divan::black_box(5u64) + 1
@@ -51,7 +73,9 @@ fn wait_for_exit() -> usize {
     left
 }
 
-fn child(runs: &str) {
+fn child(runs: &str, flags: &str) {
+    NOISY.store(flags.contains("noisy"), std::sync::atomic::Ordering::Relaxed);
+    BOOM.store(flags.contains("boom"), std::sync::atomic::Ordering::Relaxed);
     let mut k = 0;
     for r in runs.split(',').filter(|r| !r.is_empty()) {
         let d = divan::Divan::default();
@@ -79,10 +103,24 @@ fn dispatch(mode: &str, line: &str) -> String {
                 .find_map(|t| t.strip_prefix("runs="))
                 .unwrap_or("test,bench")
                 .to_string();
+            // `noisy=1`: user code prints to stdout on every thread; `boom=1`:
+            // user code panics on a pooled thread
+            let mut flags = String::new();
+            for t in line.split(' ') {
+                if t == "noisy=1" {
+                    flags.push_str("noisy,");
+                }
+                if t == "boom=1" {
+                    flags.push_str("boom,");
+                }
+            }
+            // a run that does not finish is a hang (no benchmark here takes a millisecond)
+            let limit = Duration::from_secs(if flags.is_empty() { 60 } else { 15 });
             let exe = std::env::current_exe().expect("exe");
             let mut ch = Command::new(exe)
                 .arg("leak-child")
                 .arg(&runs)
+                .arg(&flags)
                 .stdin(Stdio::null())
                 .stdout(Stdio::piped())
                 .stderr(Stdio::null())
@@ -99,7 +137,7 @@ fn dispatch(mode: &str, line: &str) -> String {
             let status = loop {
                 match ch.try_wait() {
                     Ok(Some(s)) => break Some(s),
-                    Ok(None) if t0.elapsed() > Duration::from_secs(60) => {
+                    Ok(None) if t0.elapsed() > limit => {
                         let _ = ch.kill();
                         let _ = ch.wait();
                         break None;
@@ -110,10 +148,14 @@ fn dispatch(mode: &str, line: &str) -> String {
             };
             let out = h.join().unwrap_or_default();
             let last = out.lines().rev().find(|l| l.starts_with("survivors=")).map(|l| l.to_string());
+            use std::os::unix::process::ExitStatusExt;
             match (status, last) {
                 (Some(s), Some(l)) if s.success() => l,
+                // the user's panic ended the process the ordinary way (reported, exit code 101)
+                (Some(s), _) if s.code() == Some(101) => "panic-reported exit=101".to_string(),
+                (Some(s), _) if s.signal().is_some() => format!("killed signal={}", s.signal().unwrap()),
                 (Some(s), _) => format!("crash status={s}"),
-                (None, _) => "crash timeout".to_string(),
+                (None, _) => "hang".to_string(),
             }
         }
         _ => panic!("unknown mode {mode}"),
@@ -123,7 +165,10 @@ fn dispatch(mode: &str, line: &str) -> String {
 fn main() {
     let args: Vec<String> = std::env::args().collect();
     if args.get(1).map(|s| s.as_str()) == Some("leak-child") {
-        child(args.get(2).map(|s| s.as_str()).unwrap_or("test,bench"));
+        child(
+            args.get(2).map(|s| s.as_str()).unwrap_or("test,bench"),
+            args.get(3).map(|s| s.as_str()).unwrap_or(""),
+        );
         return;
     }
     hxlib::run(dispatch);
